@@ -31,4 +31,5 @@ with open('/verif/seeded/RESULTS.md', 'w') as f:
     for row in rows: f.write('| %s | %s | %s | %s | %s |\n' % tuple(str(x).replace('|', '/') for x in row))
     det = sum(1 for r in rows if r[2] == 'DETECTED')
     f.write('\n%d of %d detected.\n' % (det, len(rows)))
+sh('tools/runall.sh', cwd='/verif')   # evidence files must describe the clean tree again
 print('%d of %d detected' % (sum(1 for r in rows if r[2] == 'DETECTED'), len(rows)))
